@@ -24,7 +24,7 @@ import tokenize
 from .. import boot, canon, corpus, pf, pool
 
 ID = 'C16'
-BUDGET = {'quick': 300, 'thorough': 2400}
+BUDGET = {'quick': 600, 'thorough': 3000}
 
 UNION_PROGRAMS = {
     'u:two-classes': '''\
@@ -155,9 +155,70 @@ many(bytearray())
 many(object())
 many(len)
 ''',
+    # a comprehension that several queries iterate: the memoised iteration result must be a
+    # value, not a one-shot iterator
+    'u:comprehension': '''\
+values = [item for item in (1, 2)]
+first = values[0]
+first
+for each in values:
+    each
+pairs = {key: str(key) for key in values}
+pairs
+''',
+    # reference search runs with flow analysis switched off; what it infers on the way (the
+    # base `holder` of `holder.attr`) must not be remembered for the next query
+    'u:flow-memo': '''\
+import sys
+class Alpha:
+    attr = 1
+class Beta:
+    attr = 2
+if sys.version_info >= (3, 0):
+    holder = Alpha()
+else:
+    holder = Beta()
+holder.attr
+''',
+    # a zc.buildout project (side files below): two directories that a bin/ script puts on
+    # sys.path define the same module; which one is found must not depend on the process
+    'u:buildout': '''\
+import dupmod
+chosen = dupmod.Marker()
+chosen
+''',
+    # an imported module changes sys.path for ITSELF (side files below); the buffer's own
+    # imports must not start to resolve through that change once the module was looked at
+    'u:syspath': '''\
+from conf_side import setting
+def getter():
+    import hidden_two
+    return hidden_two.SecretTwo()
+setting
+got = getter()
+got
+''',
+}
+SIDE_FILES = {
+    'u:buildout': {
+        'buildout.cfg': '[buildout]\nparts =\n',
+        'bin/runner': "#!/usr/bin/python\nimport sys\nsys.path[0:0] = [\n    '../eggs/first',\n"
+                      "    '../eggs/second',\n    '../eggs/third',\n]\n",
+        'eggs/first/dupmod.py': 'class Marker:\n    from_first = 1\n',
+        'eggs/second/dupmod.py': '\nclass Marker:\n    from_second = 1\n',
+        'eggs/third/dupmod.py': '\n\nclass Marker:\n    from_third = 1\n',
+    },
+    'u:syspath': {
+        'conf_side.py': "import sys\nsys.path.append('extra_dir')\nimport hidden_one\n"
+                        "setting = hidden_one.SecretOne()\n",
+        'extra_dir/hidden_one.py': 'class SecretOne:\n    pass\n',
+        'extra_dir/hidden_two.py': 'class SecretTwo:\n    pass\n',
+    },
 }
 # per-program overrides of the event alphabet: {program: {event index: (method, line, column)}}
-EVENT_OVERRIDES = {'u:dynamic-params': {0: ('infer', 5, 12), 2: ('infer', 3, 10)}}
+EVENT_OVERRIDES = {'u:dynamic-params': {0: ('infer', 5, 12), 2: ('infer', 3, 10)},
+                   'u:flow-memo': {0: ('infer', 10, 3), 3: ('get_references', 10, 9),
+                                   4: ('get_references_file', 10, 9)}}
 
 MENU_SEEDS = [0, 1, 2, 3, 7, 42]
 
@@ -245,6 +306,14 @@ def new_script(text, tag):
     tag = '%s_%s' % (tag, hashlib.sha1(text.encode('utf-8')).hexdigest()[:10])
     root = os.path.join(boot.scratch_root(), 'c16', tag)
     os.makedirs(root, exist_ok=True)
+    for pid, side in SIDE_FILES.items():
+        if UNION_PROGRAMS[pid] == text:
+            for rel, content in side.items():
+                fp = os.path.join(root, rel)
+                if not os.path.exists(fp):
+                    os.makedirs(os.path.dirname(fp), exist_ok=True)
+                    with open(fp, 'w') as f:
+                        f.write(content)
     return jedi.Script(text, path=os.path.join(root, 'main.py'),
                        environment=boot.environment(), project=jedi.Project(root))
 
@@ -542,11 +611,12 @@ def run(ctx):
     seqs = [list(s) for d in range(1, depth + 1) for s in itertools.product(range(8), repeat=d)]
     # repetition runs on programs whose answers do not depend on set order (the order-dependent
     # ones are the subject of (i) and would make "same answer again" depend on object addresses)
-    det = [(p, t) for p, t in progs if p in ('u:exec-budget', 'u:rebinding', 'u:dynamic-params')]
+    det = [(p, t) for p, t in progs if p in ('u:exec-budget', 'u:rebinding', 'u:dynamic-params',
+                                             'u:comprehension', 'u:syspath', 'u:flow-memo')]
     for chain in (['identity'], ['init_attr'], ['closure', 'method_ret'], ['generator_for']):
         pp = pf.build('inst', chain)
         det.append((pp.pid(), pp.render()['main.py']))
-    rep_progs = det[:5] if tier == 'quick' else det
+    rep_progs = det[:8] if tier == 'quick' else det
     tasks = []
     for pid, text in rep_progs:
         chunk = max(1, len(seqs) // 16)
